@@ -4,6 +4,7 @@
   Helper lemmas for the `src_*` theorems of `ALV.Props.C17`.  Core Lean only.
 -/
 import ALV.Gen.C17Src
+import ALV.Model.C17Next
 namespace ALV.C17
 open ALV.Gen.C17
 
@@ -68,5 +69,58 @@ theorem ctlGo_is_ctlOp (cfg : Cfg) (k : Ctl) :
     ctlOp cfg.fixed k = (if ctlGo cfg k then Op.goSet else Op.goClear) := by
   rcases cfg with ⟨w, f, fl⟩
   cases k <;> cases f <;> rfl
+
+/-- **the successor structure of `stepPlayer` is the skeleton's**: whenever player `i` makes a step
+    (source variant `fixed`, the one `src_variant_is_modelled` reads), its program counter moves
+    exactly to `nextPc skeleton …`: the yield point the control-flow interpreter of the regenerated
+    skeleton of `AudioThread.run` (`ALV.Model.C17Next`) reaches from the pending one, under the guard
+    values the player reads in that state (`halting`, `go.is_set()`, another chunk?, still
+    registered?, does the pending operation raise?). -/
+theorem player_pc_is_nextPc (cfg : Cfg) (hfix : cfg.fixed = true) (s s' : State) (i : Nat) (p : Player)
+    (hp : s.players[i]? = some p) (hs : stepPlayer cfg s i = some s') :
+    (s'.players[i]?).map (·.pc) = some (nextPc skeleton (playerGv s i p) p.pc) := by
+  have hi : i < s.players.length := by
+    rcases Nat.lt_or_ge i s.players.length with h | h
+    · exact h
+    · rw [List.getElem?_eq_none h] at hp; cases hp
+  unfold stepPlayer at hs
+  rw [hp] at hs
+  rcases p with ⟨pc, audio, cs, all, todo, written, sst, lk, go, halting, fail⟩
+  rcases cfg with ⟨w, f, fl⟩
+  simp only at hfix
+  subst hfix
+  simp only [playerGv]
+  generalize s.threads.contains i = t at hs ⊢
+  cases pc <;> simp only [] at hs
+  case new => cases hs
+  case done => cases hs
+  case write =>
+    rcases todo with _ | ⟨c, rest⟩ <;> simp only [] at hs
+    · cases fail <;> simp at hs
+      subst hs
+      simp [setP, hi]
+      cases halting <;> cases go <;> cases t <;> rfl
+    · cases hs
+      simp [setP, hi]
+      cases halting <;> cases go <;> cases fail <;> cases t <;> rfl
+  case goWait =>
+    cases go <;> simp at hs
+    subst hs
+    simp [setP, hi]
+    cases halting <;> cases fail <;> cases t <;> rcases todo with _ | ⟨c, rest⟩ <;> rfl
+  case finAcq =>
+    cases lk <;> simp at hs
+    subst hs
+    simp [setP, hi]
+    cases halting <;> cases go <;> cases fail <;> cases t <;> rcases todo with _ | ⟨c, rest⟩ <;> rfl
+  case tfAcq =>
+    cases hm : s.mlock <;> simp [hm] at hs
+    subst hs
+    simp [setP, hi]
+    cases halting <;> cases go <;> cases fail <;> cases t <;> rcases todo with _ | ⟨c, rest⟩ <;> rfl
+  all_goals
+    cases hs
+    simp [setP, hi, loopHead]
+    cases halting <;> cases go <;> cases fail <;> cases t <;> rcases todo with _ | ⟨c, rest⟩ <;> rfl
 
 end ALV.C17
